@@ -323,7 +323,7 @@ pub struct ThreadsCase {
 
 /// runs `f(thread_index)` on `n` real threads that start together; a panic inside the code
 /// under test is turned into a violation
-fn run_threads<R: Send>(n: usize, f: impl Fn(usize) -> R + Sync) -> Result<Vec<R>, Fail> {
+pub(crate) fn run_threads<R: Send>(n: usize, f: impl Fn(usize) -> R + Sync) -> Result<Vec<R>, Fail> {
     let barrier = std::sync::Barrier::new(n);
     let results: Vec<std::thread::Result<R>> = std::thread::scope(|s| {
         let handles: Vec<_> = (0..n)
@@ -734,6 +734,12 @@ fn nonce_strategy(_t: Tier) -> impl Strategy<Value = (u64, u64)> {
 // ---------------------------------------------------------------------------------------
 
 pub fn subs() -> Vec<Box<dyn SubCheck>> {
+    let mut v = base_subs();
+    v.extend(crate::c19_race::subs());
+    v
+}
+
+fn base_subs() -> Vec<Box<dyn SubCheck>> {
     vec![
         Box::new(EnumCheck::<Walk> { name: "receiver_exhaustive", total: enum_total, case: enum_case, oracle: run_walk }),
         Box::new(PropCheck::<Walk, _> {
@@ -784,11 +790,20 @@ pub fn property() -> Property {
                far above the thread's current id, replayed, out of order) through the map's four packet entry points: all ids \
                pairwise distinct, per-thread strictly increasing, every id issued after a completely processed StaleKey(m) is >= m \
                (same thread, and across threads by SeqCst stamps); non-trivial: >= 2 threads and >= 1 StaleKey. \
+               sender_stale_race: 2-8 threads issue a fixed number of ids each in a tight loop while 1-2 threads deliver pre-built \
+               genuine StaleKey packets (min_key_id = k*stride, generated stride 48..400, through the map's four packet entry points) \
+               timed so that the update executes while the counter passes min_key_id: the thread measures with a replayed \
+               min_key_id-0 packet how many ids are issued while one packet is processed and issues ids itself until the counter \
+               is that many (+ a generated offset -64..64) below min_key_id; order-independent oracle: all ids of all threads \
+               pairwise distinct, per-thread strictly increasing, genuine packets accepted, a thread's next id after its packet was \
+               processed >= min_key_id; non-trivial: at least one StaleKey raised the counter and at least one arrived after the \
+               counter had passed it (the timing straddles the race). \
                nonce_injective: IntoNonce for u64 is injective. Distinct = distinct generated programs.",
         assumptions: &[
             "the set model (BTreeSet + max, window 896 taken from the property text) is the trusted base",
             "thread schedules are chosen by the OS scheduler (x86-64, oversubscribed cores), not enumerated; the generated part is the per-thread programs",
             "map entries are created through the public dc::Endpoint/dc::Path handshake interface with a harness TlsSession exporting the generated secret",
+            "sender_stale_race: a failing case is remembered per process (the duplicate was observed), so shrinking / re-execution report it even when the scheduler does not repeat the interleaving; `replay` of such a file re-runs the race and is probabilistic",
             "sender ids stay below 2^62 - 2^40: the documented exhaustion panic of next_key_id at 2^62 is not exercised",
             "key/nonce uniqueness is inferred from key-id uniqueness plus injectivity of IntoNonce; HKDF key separation per key id is trusted",
         ],
